@@ -6,6 +6,7 @@ graph that starts empty and the reply is `{"res":[r, …]}` with one entry per o
 
 Mutating ops (reply `null` or `{"err":cls}`):
   {"op":"init","map":[[n,[c,…]],…]}      Graph(nodes=mapping) (replaces the state)
+  {"op":"update_edges","map":[[n,[c,…]],…]}   TaskGraph.update_edges(mapping) on the live object
   {"op":"add_node","n":n,"cs":[c,…]}
   {"op":"add_child","n":n,"c":c}
   {"op":"remove","n":n}
@@ -128,6 +129,9 @@ def step (g : Graph) (j : Json) : Except String (Graph × Json) := do
   | "init" =>
     let m ← mapM' pairNatList (← fldArr j "map")
     return (Graph.ofMapping m, Json.null)
+  | "update_edges" =>
+    let m ← mapM' pairNatList (← fldArr j "map")
+    return (g.updateEdges m, Json.null)
   | "add_node" =>
     return (g.addNode (← fldNat j "n") (← natList (← fld j "cs")), Json.null)
   | "add_child" =>
